@@ -9,7 +9,9 @@
         reinterpret_array_cast<U>(n) :1835-1865, :2293-2317 (D>1)   :3248-3257 (D=1)
         elements_iterator_t          :749-867 (constructor :774-775, ++ :801-805, * :846)
      /repo/include/boost/multi/utility.hpp      transform_ptr :72-151 (operator* :112-116, += :124)
-     /repo/include/boost/multi/detail/layout.hpp layout_t::scale(num, den) :985-989 (= Layout.l_scale)
+     /repo/include/boost/multi/detail/layout.hpp layout_t::scale(num, den) :985-989 (= ProjectC12Based.l_scale_b:
+        stride, OFFSET and nelems are scaled -- the code since /repo 1b46e17; before it the offset was left as it
+        was and asserted to be 0, Layout.l_scale)
      /repo/include/boost/multi/array.hpp        static_array(const_subarray<OtherT,...> const&, alloc) :371-388
 
    Pointers.  View.v measures a base pointer in ELEMENTS from the root's data_elements().  A cast to
@@ -21,7 +23,7 @@
    U* moves p_esz bytes per unit), which is what p_exec_op says.
    Definitions only. *)
 From Coq Require Import ZArith List Bool.
-From BM Require Import Model.Layout Model.View.
+From BM Require Import Model.Layout Model.View Model.ProjectC12Based.
 Import ListNotations.
 Local Open Scope Z_scope.
 
@@ -52,9 +54,10 @@ Fixpoint p_run_ops (ops : list op) (x : pview) : option pview :=
    :3232        subarray<T2,1,P2>(layout().scale(sizeof(T), sizeof(T2)), p2)      p2 = address of base_->member
    moff = offsetof(T, m). *)
 Definition p_member_cast (szU moff : Z) (x : pview) : pview :=
-  p_rebase (l_scale (p_esz x) szU (lay (p_view x))) (p_ptr x + moff) szU.
+  p_rebase (l_scale_b (p_esz x) szU (lay (p_view x))) (p_ptr x + moff) szU.
 
-(* layout.hpp:986  assert((stride_*num) % den == 0), evaluated at every level of the recursion *)
+(* layout.hpp:986  assert((stride_*num) % den == 0), evaluated at every level of the recursion
+   (:987 assert((offset_*num) % den == 0) is ProjectC12Based.dom_scale_offset; both = dom_scale_b) *)
 Definition dom_scale (num den : Z) (l : layout) : bool :=
   forallb (fun d => Z.rem (d_stride d * num) den =? 0) l.
 (* :1758/:1772/:3219 static_assert(sizeof(T) % sizeof(T2) == 0); the member lies inside the element *)
@@ -64,13 +67,15 @@ Definition dom_member (szT szU moff : Z) : bool :=
 (* ---- reinterpret_array_cast<U>() ----
    D>1 :1825-1828, :2265-2268   {layout().scale(sizeof(T), sizeof(T2)), reinterpret_pointer_cast<P2>(base_)}
    D=1 :3242-3245  layout_type{sub, stride*sizeof(T)/sizeof(T2), offset*sizeof(T)/sizeof(T2),
-                                nelems*sizeof(T)/sizeof(T2)}           -- this path DOES scale the offset *)
+                                nelems*sizeof(T)/sizeof(T2)}           -- written out by hand in the const& overload
+                                of const_subarray<T,1>; the & / && overloads of a rank-1 subarray are the generic ones
+                                (:2278-2296) and go through scale.  Since 1b46e17 both compute the same triple. *)
 Definition d_rescale1 (num den : Z) (d : dim) : dim :=
   mkdim (Z.quot (d_stride d * num) den) (Z.quot (d_offset d * num) den) (Z.quot (d_nelems d * num) den).
 Definition l_reinterpret (num den : Z) (l : layout) : layout :=
   match l with
   | [d] => [d_rescale1 num den d]
-  | _ => l_scale num den l
+  | _ => l_scale_b num den l
   end.
 Definition p_reinterpret (szU : Z) (x : pview) : pview :=
   p_rebase (l_reinterpret (p_esz x) szU (lay (p_view x))) (p_ptr x) szU.
@@ -84,8 +89,8 @@ Definition dom_reinterpret (szT szU : Z) (l : layout) : bool :=
 Definition p_reinterpret_n (szU n : Z) (x : pview) : pview :=
   let l := lay (p_view x) in
   match l with
-  | [_] => mkpview (v_rotated (mkview (mkdim 1 0 n :: l_scale (p_esz x) szU l) 0)) (p_ptr x) szU
-  | _ => p_rebase (l_rotate (mkdim 1 0 n :: l_scale (p_esz x) szU l)) (p_ptr x) szU
+  | [_] => mkpview (v_rotated (mkview (mkdim 1 0 n :: l_scale_b (p_esz x) szU l) 0)) (p_ptr x) szU
+  | _ => p_rebase (l_rotate (mkdim 1 0 n :: l_scale_b (p_esz x) szU l)) (p_ptr x) szU
   end.
 (* :1845 static_assert(sizeof(T) % sizeof(T2) == 0), :1847 BOOST_MULTI_ASSERT(sizeof(T) == sizeof(T2)*count)
    (the D=1 overload has only the static_assert; the documented use is the same) *)
@@ -171,10 +176,20 @@ Definition p_exec_proj (p : proj) (x : pview) : pview :=
   | PReinterpretN szU n => p_reinterpret_n szU n x
   | PIdentity => mkpview (v_static_array_cast (p_view x)) (p_org x) (p_esz x)
   end.
-Definition p_dom_proj (p : proj) (x : pview) : bool :=
+(* the documented domain (static_asserts, BOOST_MULTI_ASSERTs) together with the two assertions inside
+   layout_t::scale.  constref = the projection is called through a const reference: only then a rank-1 view
+   takes the hand-written code of const_subarray<T,1>::reinterpret_array_cast() const& (:3287-3295), which asserts
+   the stride divisibility only. *)
+Definition p_dom_proj (constref : bool) (p : proj) (x : pview) : bool :=
+  let l := lay (p_view x) in
   match p with
-  | PMember szU moff => dom_member (p_esz x) szU moff
-  | PReinterpret szU => dom_reinterpret (p_esz x) szU (lay (p_view x))
-  | PReinterpretN szU n => dom_reinterpret_n (p_esz x) szU n
+  | PMember szU moff => dom_member (p_esz x) szU moff && dom_scale_b (p_esz x) szU l
+  | PReinterpret szU =>
+      dom_reinterpret (p_esz x) szU l
+      && match l with
+         | [_] => constref || dom_scale_b (p_esz x) szU l
+         | _ => dom_scale_b (p_esz x) szU l
+         end
+  | PReinterpretN szU n => dom_reinterpret_n (p_esz x) szU n && dom_scale_b (p_esz x) szU l
   | PIdentity => true
   end.
